@@ -1,5 +1,8 @@
 
 import numpy as np
+
+from ...util import hashobj
+
 from .ancillary_feature import AncillaryFeature
 
 
@@ -78,6 +81,18 @@ def compute_ml_class(mm, sanity_checks=True):
     return ml_class
 
 
+def is_temporary_feature(mm, feat):
+    """Whether `feat` is a temporary feature of `mm` or of its parents"""
+    ds = mm
+    while True:
+        if feat in ds._usertemp:
+            return True
+        elif ds.format == "hierarchy":
+            ds = ds.hparent
+        else:
+            return False
+
+
 def has_ml_scores(mm):
     """Check whether the dataset has ml_scores defined"""
     # Return the sorted score names plus Ancillary feature hashes.
@@ -91,7 +106,12 @@ def has_ml_scores(mm):
         # this ML score. But this use case is basically non-existent and
         # the performance impact is probably negligible.
         candidates = AncillaryFeature.get_instances(feat)
-        idlist.append((feat, [c.hash(mm) for c in candidates]))
+        hashes = [c.hash(mm) for c in candidates]
+        if is_temporary_feature(mm, feat):
+            # The data of a temporary feature may be replaced by the
+            # user at any time.
+            hashes.append(hashobj(np.asarray(mm[feat])))
+        idlist.append((feat, hashes))
     return idlist
 
 
